@@ -2,7 +2,7 @@
 import typedvrl as tv
 
 ID = "C02"
-THEOREMS = ['C02_or_undefined_refuted', 'C02_insert_coerce_refuted', 'C02_remove_shift_refuted', 'C02_closure_effect_refuted', 'C02_nan_exception_typed', 'C02_statement_never_errors_partial', 'C02_straightline_never_fails_partial']
+THEOREMS = ['C02_or_undefined_refuted', 'C02_insert_coerce_refuted', 'C02_remove_shift_refuted', 'C02_closure_effect_refuted', 'C02_and_true_rhs_refuted', 'C02_div_lhs_fallible_refuted', 'C02_nan_exception_typed', 'C02_statement_never_errors_partial', 'C02_straightline_never_fails_partial']
 MANIFEST = {
     "level": "proof",
     "technique": "Coq proof on a hand model of Expression::type_info (Model/TypeInfo.v) against the Core-VRL evaluator + "
